@@ -48,6 +48,9 @@ BUILT={
 BUILT["C20"]=("bounded-exhaustive term enumeration x translator family, structural walker as oracle",
         "Every well-typed term up to the node bound in four contexts, a descriptor family covering every wrapping and tap trees, and policies are translated with identity / renaming / composed / failing-on-each-label / String->concrete / context-illegal translators; structure, types, scripts (against the reference encoder) and error kinds are compared with the harness model; iter_pk / for_each_key / for_any_key / Concrete::keys are compared with the key tokens of the string form.",
         "3 C20")
+BUILT["C12"]=("bounded-exhaustive term enumeration x complete switch lattice; structural reference predicates",
+        "Every well-typed term of every base type up to the node bound (key partitions, key forms): each validation switch alone fails iff the structurally computed defect is present, all 2^14 switch combinations on small terms, every numeric limit at figure-1 / figure / figure+1; every term pushed through every constructor and parser of its context against a structural legality predicate; descriptor-parser acceptance implies consensus-miniscript-parser acceptance; entails/intersect lattice laws on a parameter family and monotonicity of validate over all entailing pairs.",
+        "3 C12")
 NA_REASON={}
 
 def hooks_commits():
